@@ -8,6 +8,14 @@ from lib import H, L, Lst
 from family import Family, hx, unhx
 
 
+MISALIGNED_FIRST_LINE = {
+    'utf-16-le': ('\u0a41\u4100', '\u0d41\u0a00\u4100'), 'utf-16': ('\u0a41\u4100', '\u0d41\u0a00\u4100'),
+    'utf-16-be': ('\u4100\u0a41', '\u4100\u0d00\u0a41'),
+    'utf-32-le': ('\u0a41\u4100', '\u0d41\u0a00\u4100'), 'utf-32': ('\u0a41\u4100', '\u0d41\u0a00\u4100'),
+    'utf-32-be': ('\U00010000\U000a0041', None),
+}
+
+
 class Stream(Family):
     """Well-ordered call sequences: writer bytes after every call (C02/C09) and reader records of the result
     (C01/C03/C04), model vs implementation; C01 oracle = independent statement of the round trip."""
@@ -23,6 +31,19 @@ class Stream(Family):
         for i in range(n):
             main, calls = gc.gen_wellformed_calls(rng)
             yield dict(kind='wellformed', main=main, calls=calls)
+            if i % 20 == 0:
+                # first lines whose ENCODED form contains the newline bytes at a non-character boundary, with no declared
+                # line endings: the kind is detected on the text, never on the encoded bytes
+                for codec, (lf_pair, crlf_triple) in MISALIGNED_FIRST_LINE.items():
+                    texts = ['a' + lf_pair + 'b\r\nsecond\r\n', lf_pair + '\r\nx']
+                    if crlf_triple:
+                        texts += ['a' + crlf_triple + 'b\nsecond\n', crlf_triple + '\nx']
+                    t = texts[(i // 20) % len(texts)]
+                    ind = [None, {'i': 0}, {'i': 4}, 'omitted'][(i // 20) % 4]
+                    yield dict(kind='wellformed', main=codec, misaligned=True,
+                               calls=[['write_preamble', sl.S(t), None, ind, None, None], ['new_change', None],
+                                      ['write_preamble', sl.S(t), None, ind, None, None], ['new_file', None],
+                                      ['write_meta', {'d': {'k': 1}}, None, 'omitted']])
             if i % 10 == 0:
                 # a file that declares no encoding (valid: content is then 8-bit data); metadata may be written with
                 # no encoding in force at all
@@ -189,6 +210,49 @@ INVALID = [
 ]
 
 
+def gen_enc_accept(rng):
+    import spec
+    main = rng.choice(['ascii', 'utf-8', 'latin-1'])
+    texts = ['x\n', 'caf\u00e9\n', '\u65e5\u672c\n']
+    eff = {0: main}
+    level = 0
+    prev = 'diffx'
+    calls, expect = [], []
+
+    def can(t, enc):
+        try:
+            t.encode(enc)
+            return True
+        except UnicodeError:
+            return False
+    for _ in range(rng.randint(4, 12)):
+        legal = [k for k in KINDS if spec.may_follow(prev, spec.target_section(level, k))]
+        if not legal:
+            break
+        kind = rng.choice(legal)
+        target = spec.target_section(level, kind)
+        ok = True
+        if kind in ('new_change', 'new_file'):
+            e = rng.choice([None, None, 'ascii', 'utf-8', 'latin-1'])
+            call = [kind, sl.S(e) if e else None]
+            level = 1 if kind == 'new_change' else 2
+            eff[level] = e or eff[level - 1]
+        elif kind == 'write_preamble':
+            own = rng.choice([None, None, None, 'ascii', 'utf-8'])
+            t = rng.choice(texts)
+            ok = can(t, own or eff[level])
+            call = ['write_preamble', sl.S(t), sl.S(own) if own else None, 'omitted', None, None]
+        elif kind == 'write_meta':
+            call = ['write_meta', {'d': {'k': 'caf\u00e9'}}, None, 'omitted']
+        else:
+            call = ['write_diff', sl.Bv(b'-a\n+b\n'), None, None, None]
+        calls.append(call)
+        expect.append(ok)
+        if ok:
+            prev = target
+    return dict(kind='enc-accept', main=main, calls=calls, must=[], expect=expect)
+
+
 class Calls(Family):
     name = 'calls'
     rule = ('every sequence over {new_change,new_file,write_preamble,write_meta,write_diff} with valid arguments up to '
@@ -228,6 +292,10 @@ class Calls(Family):
                     # bias towards a plausible order so that long accepted prefixes occur
                     calls.append(VALID[rng.choice(KINDS + ['new_file', 'write_meta', 'write_diff'])])
             yield dict(kind='random', main=rng.choice(['utf-8', 'utf-16', 'latin-1']), calls=calls, must=must)
+        # acceptance that depends on WHICH encoding is in force: a text call is valid iff its text can be encoded in the
+        # nearest declared encoding (own, else the innermost enclosing container that declares one, else the main one)
+        for i in range(300 if tier == 'quick' else 6000):
+            yield gen_enc_accept(rng)
 
     def _impl(self, c):
         if '_impl' not in c:
@@ -282,6 +350,9 @@ class Calls(Family):
             if valid_args and ok != spec.may_follow(prev, target) and not (tainted and not ok):
                 out.append(('C09', 'order', 'call %d (%s after %s): accepted=%s but may_follow=%s'
                             % (i, target, prev, ok, spec.may_follow(prev, target))))
+            if c['kind'] == 'enc-accept' and ok != c['expect'][i]:
+                out.append(('C09', 'encodability-acceptance', 'call %d (%s): accepted=%s, but with the nearest declared '
+                            'encoding the call is %s' % (i, target, ok, 'valid' if c['expect'][i] else 'invalid')))
             if i in c.get('must', []) and ok:
                 out.append(('C09', 'invalid-argument-accepted', 'call %d with an invalid argument was accepted' % i))
             if ok:
@@ -1081,7 +1152,7 @@ FUZZ_TOKENS = [b'0', b'-1', b'abc', b'1_0', b'=', b', ', b' ', b'\r\n', b'\n', b
                b'encoding=punycode', b'encoding=idna', b'encoding=utf-7', b'encoding=cp037', b'encoding=undefined',
                b'encoding=rot13', b'encoding=hex', b'encoding=unicode_escape', b'encoding=raw_unicode_escape',
                b'encoding=utf-16-be', b'encoding=cp1252', b'encoding=shift_jis', b'encoding=iso2022_jp', b'encoding=hz',
-               b'punycode', b'idna', b'xn--a',
+               b'punycode', b'idna', b'xn--a', b'%', b'%s', b'%d%%', b'{0}', b'%(linenum)d',
                b'9' * 4300, b'9' * 4301, b'-' + b'1' * 4301, b'0' * 5000, b'x=' + b'7' * 4400, b'length=' + b'3' * 4310]
 MODELLED_CANON = {'ascii', 'iso8859-1', 'utf-8', 'utf-8-sig', 'utf-16', 'utf-16-le', 'utf-16-be', 'utf-32', 'utf-32-le',
                   'utf-32-be'}
@@ -1194,8 +1265,9 @@ class Fuzz(Family):
                      ('.preamble', [], b'hello\n'), ('.meta', [('format', 'json')], b'{"a": 1}\n'),
                      ('.change', [], None), ('..preamble', [], b'hi\n'), ('..meta', [], b'{}\n'),
                      ('..file', [], None), ('...meta', [], b'{}\n'), ('...diff', [], b'x\n')]
-        grid_keys = ['encoding', 'length', 'indent', 'line_endings', 'format', 'version', 'type', 'mimetype', 'x']
-        grid_vals = ['5', '0', '-1', '007', 'abc', '1_0', 'True', 'None', 'x/y', 'utf-16', 'dos', '9' * 4301]
+        grid_keys = ['encoding', 'length', 'indent', 'line_endings', 'format', 'version', 'type', 'mimetype', 'x', 'x%y', '%s', 'k{0}']
+        grid_vals = ['5', '0', '-1', '007', 'abc', '1_0', 'True', 'None', 'x/y', 'utf-16', 'dos', '9' * 4301,
+                     'a%b', '%s', '100%', '%(x)s', 'a b', 'a\\b', 'a{0}b']
         for hi in range(len(grid_base)):
             for key in grid_keys:
                 for val in grid_vals:
